@@ -42,8 +42,26 @@ def backend_program(backend, seed, idx, avoid_known=True, size="small", extra_pr
     rng = random.Random("tool/%s/%s/%s/%s" % (backend if size == "small" else "any", seed, idx, salt))
     g = spec.Gen(rng, profile=prof, name="p%d" % idx, **kw)
     prog = g.program()
+    if avoid_known:
+        friendly_attrs(prog)
     emit_rust.assign_abi_names(prog)
     return prog
+
+
+def friendly_attrs(prog):
+    """Attributes a careful user adds so that backends with extra requirements accept the module:
+    error types are marked (Kotlin insists), every opaque names its default constructor (demo_gen insists)."""
+    err_types = set()
+    for t, m in prog.methods():
+        if m.ret[0] == "result" and m.ret[2][0] in ("enum", "struct", "obox"):
+            err_types.add(m.ret[2][1])
+    for t in prog.types():
+        if t.name in err_types and "#[diplomat::attr(auto, error)]" not in t.attrs:
+            t.attrs.append("#[diplomat::attr(auto, error)]")
+        if t.kind == "opaque":
+            for m in t.methods:
+                if m.name == "make" and not m.attrs:
+                    m.attrs.append("#[diplomat::demo(default_constructor)]")
 
 
 def prog_productions(prog):
@@ -86,3 +104,51 @@ def norm_panic(msg):
     m = re.sub(r"\b(Op|St|En|Out)\d+\b", "T", msg)
     m = re.sub(r"\d+", "N", m)
     return m[:110]
+
+
+CONDS = ["*", "c", "cpp", "js", "dart", "kotlin", "nanobind", "demo_gen", "not(c)", "not(js)", "any(cpp, js)", "any(dart, kotlin, nanobind)",
+         "all(not(c), not(cpp))", "supports = option", "not(supports = callbacks)", "supports = namespacing", "any(supports = memory_sharing, dart)",
+         "not(any(js, demo_gen))", "all(*, not(kotlin))"]
+
+
+def decorate(prog, rng, p_item=0.35):
+    """Sprinkle backend-conditional rename/disable attributes and abi_rename patterns over module, type, impl and
+    method positions. Types are never disabled (other items may refer to them); methods and impls may be."""
+    n = 0
+    for mod in prog.modules:
+        if rng.random() < p_item:
+            mod.attrs.append('#[diplomat::abi_rename = "%s"]' % rng.choice(["vf_{0}", "{0}_v2", "lib{0}"]))
+            n += 1
+        if rng.random() < p_item / 2:
+            mod.attrs.append('#[diplomat::attr(%s, rename = "%s")]' % (rng.choice(CONDS), rng.choice(["Zz{0}", "{0}Mod"])))
+            n += 1
+        for t in mod.items:
+            if rng.random() < p_item:
+                t.attrs.append('#[diplomat::attr(%s, rename = "Ren%s")]' % (rng.choice(CONDS), t.name))
+                n += 1
+            if rng.random() < p_item / 2:
+                t.attrs.append('#[diplomat::abi_rename = "%s"]' % rng.choice(["ty_{0}", "{0}_t"]))
+                n += 1
+            if t.methods and rng.random() < p_item:
+                t.impl_attrs = getattr(t, "impl_attrs", []) + [rng.choice([
+                    '#[diplomat::attr(%s, disable)]' % rng.choice(CONDS),
+                    '#[diplomat::attr(%s, rename = "im_{0}")]' % rng.choice(CONDS),
+                    '#[diplomat::abi_rename = "impl_{0}"]'])]
+                n += 1
+            impl_disabled = any("disable" in a for a in getattr(t, "impl_attrs", []))
+            for m in t.methods:
+                if m.name in ("make",):
+                    continue
+                r = rng.random()
+                if r < 0.12 and impl_disabled:
+                    continue
+                if r < 0.12:
+                    m.attrs.append('#[diplomat::attr(%s, disable)]' % rng.choice(CONDS))
+                    n += 1
+                elif r < 0.24:
+                    m.attrs.append('#[diplomat::attr(%s, rename = "renamed_%s")]' % (rng.choice(CONDS), m.name))
+                    n += 1
+                elif r < 0.30:
+                    m.attrs.append('#[diplomat::abi_rename = "abi_%s_%s"]' % (t.name, m.name))
+                    n += 1
+    return n
